@@ -423,7 +423,8 @@ def extract() -> dict:
         clashes.append(names.id("Unknown"))
     info["undef_name_clashes"] = len(clashes)
 
-    return dict(names=names, notes=notes, info=info, entries=entries, clashes=clashes,
+    class_paths = {str(i): [c.__module__, c.__qualname__] for c, i in cls_id.items()}
+    return dict(names=names, notes=notes, info=info, entries=entries, clashes=clashes, class_paths=class_paths,
                 class_defs=class_defs, mclasses=mclasses, registry=registry,
                 special=special, consts=consts, ready_states=ready_states)
 
@@ -511,6 +512,7 @@ def emit(x: dict) -> dict:
         "names": names.list,
         "class_defs": {str(c[0]): names.list[c[1]] for c in x["class_defs"]},
         "msg_classes": {str(c[0]): names.list[c[1]] for c in x["mclasses"]},
+        "class_paths": x["class_paths"],
         "consts": x["consts"],
     }
     write_if_changed(os.path.join(GEN, "tables.json"), json.dumps(side))
